@@ -41,6 +41,19 @@
 (*   where          atoms  lo (key >= <lo>) | hi (key <= <hi>) | rp | cp    *)
 (*   lo, hi, lit    the two values; lit: written as literals, otherwise     *)
 (*                  passed as query parameters                              *)
+(*                  fn (a FUNCTION CALL op(col a, col b): the operands are   *)
+(*                  evaluated one after the other -- the thread can be      *)
+(*                  descheduled between them -- then the function is applied*)
+(*                  to the evaluated operands; op "add" a + b | "first" a)   *)
+(*                  flo / fhi: the same tests as lo / hi written as a        *)
+(*                  function call cmp(<lo>, key) <= 0 / cmp(<hi>, key) >= 0: *)
+(*                  the value (a parameter) is the FIRST operand, the key    *)
+(*                  column the second, the thread can be descheduled between *)
+(*   sub            <<>>, or the statement selects FROM A SUBQUERY:          *)
+(*                  FROM (SELECT col sub[1] AS n<sub[1]>, ... FROM tab); the *)
+(*                  outer atoms `col c' then mean the NAME n<c>, which the   *)
+(*                  compiler resolves against the columns of the subquery's  *)
+(*                  table object (name -> position in the subquery's rows)   *)
 (*   wpause         the execution can be descheduled when the compiler      *)
 (*                  asks the table for its wildcard columns                 *)
 (*   ppause         ... after every lookup in the parameters container      *)
@@ -64,10 +77,19 @@
 (*                                 the list is filled by the first scan as  *)
 (*                                 it advances and read by every later scan *)
 (*                                 (non-vacuity)                            *)
+(* OperandScope  "per call"        conforming: every call evaluates its       *)
+(*                                 operands into a list of its own           *)
+(*               "process-wide, per function"  one list per function, filled*)
+(*                                 in place by every call of that function   *)
+(*                                 (non-vacuity)                             *)
+(* SubqueryColumns "per table object"  conforming: the table object built   *)
+(*                                 for a FROM-subquery has its own name ->   *)
+(*                                 position map                              *)
+(*               "process-wide"    one map shared by all of them (non-vacuity)*)
 (***************************************************************************)
 EXTENDS Integers, Sequences, FiniteSets, TLC
 
-CONSTANTS Threads, CompilerScope, ColumnMemo, ParserScope, ScanMemo
+CONSTANTS Threads, CompilerScope, ColumnMemo, ParserScope, ScanMemo, OperandScope, SubqueryColumns
 
 PerExec == "per execution"
 PerConn == "per connection"
@@ -77,6 +99,10 @@ PerCall == "per call"
 OneParser == "process-wide"
 NoScanMemo == "none"
 LazyRows == "rows published while the first scan fills them"
+OpsPerCall == "per call"
+OpsPerFunction == "process-wide, per function"
+ColsPerTable == "per table object"
+ColsShared == "process-wide"
 
 VARIABLES
     job,        \* [Threads -> job]
@@ -92,18 +118,33 @@ VARIABLES
     memo,       \* [1..NCols -> [rowid, val]]  the process-wide slot of every column accessor
     parser,     \* [Threads -> [owner, pos]]  parser state: whose text is being read, tokens read; the entry a thread uses is PKey(t)
     got,        \* [Threads -> Seq(<<owner, n>>)]  the tokens the thread's parse() call has read
-    tmemo       \* [Threads -> [open, n]]  rows kept on a typed table's object (entry TKey(t)); written only when ScanMemo = LazyRows
+    tmemo,      \* [Threads -> [open, n]]  rows kept on a typed table's object (entry TKey(t)); written only when ScanMemo = LazyRows
+    opnd,       \* [Threads \cup {0} -> [Ops -> <<Int, Int>>]]  the evaluated operands of a function call; the entry a call uses is OKey(t)
+    names,      \* [Threads \cup {0} -> [1..NCols -> 0..NCols]]  columns of a FROM-subquery's table: name -> position (0: no such
+                \*    name); the entry a statement uses is NKey(t)
+    slot        \* [Threads -> [1..NCols -> 0..NCols]]  what the names of the thread's statement were resolved to (0: not yet)
 
 aux == <<parser, got, tmemo>>
-vars == <<job, exe, scratch, bound, ctx, pc, cur, out, memo, parser, got, tmemo>>
+xaux == <<opnd, names, slot>>
+vars == <<job, exe, scratch, bound, ctx, pc, cur, out, memo, parser, got, tmemo, opnd, names, slot>>
 
 NCols == 3
-DefaultTable == "d"
+Ops == {"add", "first", "cmp"}
 At(k, i) == [k |-> k, i |-> i]
-Pc(ph, i) == [ph |-> ph, i |-> i]
+Fn(op, a, b) == [k |-> "fn", i |-> 0, op |-> op, a |-> a, b |-> b]
+PcS(ph, i, s) == [ph |-> ph, i |-> i, s |-> s]      \* s: the step inside the evaluation of a function call (0..3)
+Pc(ph, i) == PcS(ph, i, 0)
 ErrRow == <<-1>>            \* the statement failed (only a broken mechanism gets there)
+ErrVal == -9                \* an accessor reads past the end of the row (only a broken mechanism gets there)
 Job0 == [conn |-> 0, ledger |-> <<>>, tab |-> "e", star |-> FALSE, targets |-> <<>>, where |-> <<>>, lo |-> 0, hi |-> 0,
-         lit |-> TRUE, wpause |-> FALSE, ppause |-> FALSE, ty |-> 0, parse |-> 0]
+         lit |-> TRUE, wpause |-> FALSE, ppause |-> FALSE, ty |-> 0, parse |-> 0, sub |-> <<>>]
+(* the table a compiler has selected: a table of the connection, or the table object of a FROM-subquery over it *)
+TableOf(J) == [tab |-> J.tab, sub |-> J.sub]
+BaseOf(J) == [tab |-> J.tab, sub |-> <<>>]
+DefaultTable == [tab |-> "d", sub |-> <<>>]
+HasSub(J) == Len(J.sub) > 0
+PosIn(s, c) == IF \E n \in 1..Len(s) : s[n] = c THEN CHOOSE n \in 1..Len(s) : s[n] = c ELSE 0
+FnVal(op, x, y) == CASE op = "add" -> x + y [] op = "first" -> x [] OTHER -> x - y
 
 -----------------------------------------------------------------------------
 (* the tables of a ledger *)
@@ -121,6 +162,9 @@ TableRows(ledger, tab, ty) ==
    B begin (parameters stored, default table selected)   F the FROM clause selects the table
    W wildcard columns asked from the selected table        C i  column i resolved against the selected table
    L / H a parameter value read                            P pause point      Q the query is built on the selected table
+   for a FROM-subquery, after F (which selects the table of the INNER statement):
+   I i  inner target i resolved against the selected table  G the subquery is built, its table object made (name ->
+                                                              position registered) and selected for the outer statement
    before them, when the statement is submitted as text, the steps of the parser:
    S a parser takes the text (position 0)    T the next token is read    E the syntax tree is complete *)
 RECURSIVE Flat(_)
@@ -128,16 +172,23 @@ Flat(ss) == IF ss = <<>> THEN <<>> ELSE Head(ss) \o Flat(Tail(ss))
 ParamPause(J) == IF J.ppause /\ ~J.lit THEN <<At("P", 0)>> ELSE <<>>
 AtomPlan(J, a) ==
     CASE a.k = "col" -> <<At("C", a.i)>>
+      [] a.k = "fn" -> <<At("C", a.a), At("C", a.b)>>
       [] a.k = "cp" -> <<At("P", 0)>>
       [] a.k = "lo" -> <<At("C", 1), At("L", 0)>> \o ParamPause(J)
       [] a.k = "hi" -> <<At("C", 1), At("H", 0)>> \o ParamPause(J)
+      [] a.k = "flo" -> <<At("L", 0)>> \o ParamPause(J) \o <<At("C", 1)>>
+      [] a.k = "fhi" -> <<At("H", 0)>> \o ParamPause(J) \o <<At("C", 1)>>
       [] OTHER -> <<>>
-RunTargets(J) == IF J.star THEN [c \in 1..NCols |-> At("col", c)] ELSE J.targets
+(* SELECT * : the wildcard columns of the table -- of a FROM-subquery: its targets, in its order *)
+RunTargets(J) ==
+    IF J.star THEN (IF HasSub(J) THEN [n \in 1..Len(J.sub) |-> At("col", J.sub[n])] ELSE [c \in 1..NCols |-> At("col", c)])
+    ELSE J.targets
+SubPlan(J) == IF HasSub(J) THEN [n \in 1..Len(J.sub) |-> At("I", J.sub[n])] \o <<At("G", 0)>> ELSE <<>>
 ParsePlan(J) ==
     IF J.parse = 0 THEN <<>>
     ELSE <<At("S", 0)>> \o Flat([i \in 1..J.parse |-> <<At("T", 0), At("P", 0)>>]) \o <<At("T", 0), At("E", 0)>>
 Plan(J) ==
-    ParsePlan(J) \o <<At("B", 0), At("F", 0)>>
+    ParsePlan(J) \o <<At("B", 0), At("F", 0)>> \o SubPlan(J)
     \o (IF J.star THEN <<At("W", 0)>> \o (IF J.wpause THEN <<At("P", 0)>> ELSE <<>>) ELSE <<>>)
     \o Flat([i \in 1..Len(RunTargets(J)) |-> AtomPlan(J, RunTargets(J)[i])])
     \o Flat([i \in 1..Len(J.where) |-> AtomPlan(J, J.where[i])])
@@ -148,6 +199,8 @@ Scratch0 == [table |-> DefaultTable, lo |-> 0, hi |-> 0]
 Ctx0 == [rowid |-> 0, src |-> "own"]
 Parser0 == [owner |-> 0, pos |-> 0]
 TMemo0 == [open |-> FALSE, n |-> 0]
+Opnd0 == [o \in Ops |-> <<0, 0>>]
+NoNames == [c \in 1..NCols |-> 0]
 InitWith(jobs) ==
     /\ job = jobs
     /\ exe = [t \in Threads |-> Exe(jobs[t])]
@@ -161,6 +214,9 @@ InitWith(jobs) ==
     /\ parser = [t \in Threads |-> Parser0]
     /\ got = [t \in Threads |-> <<>>]
     /\ tmemo = [t \in Threads |-> TMemo0]
+    /\ opnd = [k \in Threads \cup {0} |-> Opnd0]
+    /\ names = [k \in Threads \cup {0} |-> NoNames]
+    /\ slot = [t \in Threads |-> NoNames]
 
 (* the compiler (scratch state) an execution uses *)
 Key(t) ==
@@ -171,6 +227,9 @@ Key(t) ==
 Least(S) == CHOOSE u \in S : \A w \in S : u <= w
 PKey(t) == IF ParserScope = PerCall THEN t ELSE Least(Threads)
 TKey(t) == Least({u \in Threads : job[u].conn = job[t].conn /\ job[u].tab = job[t].tab /\ job[u].ty = job[t].ty})
+(* the list a function call evaluates its operands into; the name -> position map of a FROM-subquery's table object *)
+OKey(t) == IF OperandScope = OpsPerCall THEN t ELSE 0
+NKey(t) == IF SubqueryColumns = ColsPerTable THEN t ELSE 0
 
 -----------------------------------------------------------------------------
 (* compilation *)
@@ -188,46 +247,75 @@ ParseStart(t) ==
     /\ parser' = [parser EXCEPT ![PKey(t)] = [owner |-> t, pos |-> 0]]
     /\ got' = [got EXCEPT ![t] = <<>>]
     /\ Go(t)
-    /\ UNCHANGED <<job, exe, scratch, bound, ctx, cur, out, memo, tmemo>>
+    /\ UNCHANGED <<job, exe, scratch, bound, ctx, cur, out, memo, tmemo, xaux>>
 Token(t) ==
     /\ Compiling(t, {"T"})
     /\ LET p == parser[PKey(t)] IN
          /\ got' = [got EXCEPT ![t] = Append(@, <<p.owner, p.pos + 1>>)]
          /\ parser' = [parser EXCEPT ![PKey(t)].pos = p.pos + 1]
     /\ Go(t)
-    /\ UNCHANGED <<job, exe, scratch, bound, ctx, cur, out, memo, tmemo>>
+    /\ UNCHANGED <<job, exe, scratch, bound, ctx, cur, out, memo, tmemo, xaux>>
 ParseEnd(t) ==
     /\ Compiling(t, {"E"})
     /\ IF OwnTokens(t, got[t]) THEN Go(t) /\ UNCHANGED out ELSE Fail(t)
-    /\ UNCHANGED <<job, exe, scratch, bound, ctx, cur, memo, aux>>
+    /\ UNCHANGED <<job, exe, scratch, bound, ctx, cur, memo, aux, xaux>>
 
 Begin(t) ==
     /\ Compiling(t, {"B"})
     /\ scratch' = [scratch EXCEPT ![Key(t)] = [table |-> DefaultTable, lo |-> job[t].lo, hi |-> job[t].hi]]
     /\ Go(t)
-    /\ UNCHANGED <<job, exe, bound, ctx, cur, out, memo, aux>>
+    /\ UNCHANGED <<job, exe, bound, ctx, cur, out, memo, aux, xaux>>
+(* the FROM clause selects a table of the connection -- for a FROM-subquery: the table of the inner statement *)
 From(t) ==
     /\ Compiling(t, {"F"})
-    /\ scratch' = [scratch EXCEPT ![Key(t)].table = job[t].tab]
+    /\ scratch' = [scratch EXCEPT ![Key(t)].table = BaseOf(job[t])]
     /\ Go(t)
-    /\ UNCHANGED <<job, exe, bound, ctx, cur, out, memo, aux>>
+    /\ UNCHANGED <<job, exe, bound, ctx, cur, out, memo, aux, xaux>>
+(* a target of the inner statement is resolved against the selected table *)
+Inner(t) ==
+    /\ Compiling(t, {"I"})
+    /\ IF scratch[Key(t)].table = BaseOf(job[t]) THEN Go(t) /\ UNCHANGED out ELSE Fail(t)
+    /\ UNCHANGED <<job, exe, scratch, bound, ctx, cur, memo, aux, xaux>>
+(* the inner statement is built; the table object of the subquery registers its columns -- name n<c> at the position
+   target c has in the subquery's rows -- and becomes the selected table of the outer statement.  A table object of
+   its own starts with an empty map; the process-wide map keeps what other subqueries registered *)
+SubTable(t) ==
+    /\ Compiling(t, {"G"})
+    /\ IF scratch[Key(t)].table = BaseOf(job[t])
+       THEN /\ scratch' = [scratch EXCEPT ![Key(t)].table = TableOf(job[t])]
+            /\ names' = [names EXCEPT ![NKey(t)] =
+                             [c \in 1..NCols |-> IF PosIn(job[t].sub, c) # 0 THEN PosIn(job[t].sub, c)
+                                                 ELSE IF SubqueryColumns = ColsPerTable THEN 0 ELSE names[NKey(t)][c]]]
+            /\ Go(t) /\ UNCHANGED out
+       ELSE Fail(t) /\ UNCHANGED <<scratch, names>>
+    /\ UNCHANGED <<job, exe, bound, ctx, cur, memo, aux, opnd, slot>>
 (* a name (or the wildcard) is resolved against whatever table the compiler has selected now; the statement is
-   right only if that is the table of its own FROM clause *)
+   right only if that is the table of its own FROM clause.  A column of a table of the connection is its own
+   accessor; a name of a FROM-subquery is bound to the position the table object's map gives for it NOW *)
 Resolve(t) ==
     /\ Compiling(t, {"W", "C"})
-    /\ IF scratch[Key(t)].table = job[t].tab THEN Go(t) /\ UNCHANGED out ELSE Fail(t)
-    /\ UNCHANGED <<job, exe, scratch, bound, ctx, cur, memo, aux>>
+    /\ LET J == job[t]
+           a == CAtom(t)
+           reg == names[NKey(t)]
+       IN IF scratch[Key(t)].table # TableOf(J) THEN Fail(t) /\ UNCHANGED slot
+          ELSE IF ~HasSub(J)
+          THEN Go(t) /\ UNCHANGED out /\ slot' = IF a.k = "C" THEN [slot EXCEPT ![t][a.i] = a.i] ELSE slot
+          ELSE IF a.k = "W"
+          THEN IF \A c \in 1..NCols : reg[c] = PosIn(J.sub, c) THEN Go(t) /\ UNCHANGED <<out, slot>> ELSE Fail(t) /\ UNCHANGED slot
+          ELSE IF reg[a.i] = 0 THEN Fail(t) /\ UNCHANGED slot
+          ELSE Go(t) /\ UNCHANGED out /\ slot' = [slot EXCEPT ![t][a.i] = reg[a.i]]
+    /\ UNCHANGED <<job, exe, scratch, bound, ctx, cur, memo, aux, opnd, names>>
 Bind(t) ==
     /\ Compiling(t, {"L", "H"})
     /\ bound' = IF CAtom(t).k = "L"
                 THEN [bound EXCEPT ![t].lo = IF job[t].lit THEN job[t].lo ELSE scratch[Key(t)].lo]
                 ELSE [bound EXCEPT ![t].hi = IF job[t].lit THEN job[t].hi ELSE scratch[Key(t)].hi]
     /\ Go(t)
-    /\ UNCHANGED <<job, exe, scratch, ctx, cur, out, memo, aux>>
+    /\ UNCHANGED <<job, exe, scratch, ctx, cur, out, memo, aux, xaux>>
 CompilePause(t) ==
     /\ Compiling(t, {"P"})
     /\ Go(t)
-    /\ UNCHANGED <<job, exe, scratch, bound, ctx, cur, out, memo, aux>>
+    /\ UNCHANGED <<job, exe, scratch, bound, ctx, cur, out, memo, aux, xaux>>
 (* the query is built and its scan opened: a scan walks the ledger itself ("own"); only under ScanMemo = LazyRows
    the first scan of a typed table also fills the list kept on the table object, and every later scan walks that list *)
 OpenScan(t) ==
@@ -238,12 +326,12 @@ OpenScan(t) ==
     ELSE UNCHANGED <<ctx, tmemo>>
 Build(t) ==
     /\ Compiling(t, {"Q"})
-    /\ IF scratch[Key(t)].table = job[t].tab
+    /\ IF scratch[Key(t)].table = TableOf(job[t])
        THEN /\ scratch' = [scratch EXCEPT ![Key(t)].table = DefaultTable]
             /\ OpenScan(t)
             /\ Go(t) /\ UNCHANGED out
        ELSE Fail(t) /\ UNCHANGED <<scratch, ctx, tmemo>>
-    /\ UNCHANGED <<job, exe, bound, cur, memo, parser, got>>
+    /\ UNCHANGED <<job, exe, bound, cur, memo, parser, got, xaux>>
 
 -----------------------------------------------------------------------------
 (* the scan *)
@@ -266,18 +354,28 @@ NextRow(t) ==
     /\ tmemo' = IF Filling(t) THEN [tmemo EXCEPT ![TKey(t)].n = @ + 1] ELSE tmemo
     /\ pc' = [pc EXCEPT ![t] = Norm(t, "where", 1)]
     /\ cur' = [cur EXCEPT ![t] = <<>>]
-    /\ UNCHANGED <<job, exe, scratch, bound, out, memo, parser, got>>
+    /\ UNCHANGED <<job, exe, scratch, bound, out, memo, parser, got, xaux>>
 Finish(t) ==
     /\ pc[t].ph = "next" /\ ctx[t].rowid = Available(t)
     /\ pc' = [pc EXCEPT ![t] = Pc("done", 0)]
-    /\ UNCHANGED <<job, exe, scratch, bound, ctx, cur, out, memo, aux>>
+    /\ UNCHANGED <<job, exe, scratch, bound, ctx, cur, out, memo, aux, xaux>>
 
-(* one evaluation of column c for the current row *)
+(* one evaluation of column / name c for the current row.  Own: what the statement's own text means by c.  Cell: what
+   the accessor the compiler bound for c reads -- the column itself for a table of the connection; for a FROM-subquery
+   position slot[t][c] of the subquery's row (the subquery's row n is <<base[sub[1]], .., base[sub[k]]>> of base row n:
+   it is evaluated when the outer scan opens, its own interleavings are those of a plain scan) *)
 Own(t, c) == exe[t].rows[ctx[t].rowid][c]
-Hit(t, c) == ColumnMemo = ByRowid /\ memo[c].rowid = ctx[t].rowid
-ColVal(t, c) == IF Hit(t, c) THEN memo[c].val ELSE Own(t, c)
+Cell(t, c) ==
+    LET p == slot[t][c]
+        base == exe[t].rows[ctx[t].rowid]
+    IN IF HasSub(job[t])
+       THEN (IF p \in 1..Len(job[t].sub) THEN base[job[t].sub[p]] ELSE ErrVal)
+       ELSE (IF p \in 1..NCols THEN base[p] ELSE ErrVal)
+Hit(t, c) == ColumnMemo = ByRowid /\ ~HasSub(job[t]) /\ memo[c].rowid = ctx[t].rowid
+ColVal(t, c) == IF Hit(t, c) THEN memo[c].val ELSE Cell(t, c)
 Remember(t, c) ==
-    memo' = IF ColumnMemo = ByRowid /\ ~Hit(t, c) THEN [memo EXCEPT ![c] = [rowid |-> ctx[t].rowid, val |-> Own(t, c)]]
+    memo' = IF ColumnMemo = ByRowid /\ ~HasSub(job[t]) /\ ~Hit(t, c)
+            THEN [memo EXCEPT ![c] = [rowid |-> ctx[t].rowid, val |-> Own(t, c)]]
             ELSE memo
 
 Test(t) ==
@@ -286,49 +384,86 @@ Test(t) ==
            truth == IF Atom(t).k = "lo" THEN v >= bound[t].lo ELSE v <= bound[t].hi
        IN IF truth THEN Advance(t) ELSE SkipRow(t)
     /\ Remember(t, 1)
-    /\ UNCHANGED <<job, exe, scratch, bound, ctx, cur, out, aux>>
+    /\ UNCHANGED <<job, exe, scratch, bound, ctx, cur, out, aux, xaux>>
 Column(t) ==
     /\ pc[t].ph = "target" /\ Atom(t).k = "col"
     /\ cur' = [cur EXCEPT ![t] = Append(@, ColVal(t, Atom(t).i))]
     /\ Remember(t, Atom(t).i)
     /\ Advance(t)
-    /\ UNCHANGED <<job, exe, scratch, bound, ctx, out, aux>>
+    /\ UNCHANGED <<job, exe, scratch, bound, ctx, out, aux, xaux>>
+(* a function call, in four steps: the first operand is evaluated into the call's operand list, (the thread can be
+   descheduled), the second operand is evaluated into the list, the function is applied to what the list holds NOW.
+   Target `fn': op(col a, col b), the value is appended to the row.  WHERE `flo' / `fhi': cmp(<value>, key) <= 0 / >= 0 *)
+IsCall(t) == InRow(t) /\ Atom(t).k \in {"fn", "flo", "fhi"}
+CallOp(t) == IF Atom(t).k = "fn" THEN Atom(t).op ELSE "cmp"
+SubStep(t, s) == pc' = [pc EXCEPT ![t].s = s]
+Arg1(t) ==
+    /\ IsCall(t) /\ pc[t].s = 0
+    /\ LET a == Atom(t)
+           v == IF a.k = "fn" THEN ColVal(t, a.a) ELSE IF a.k = "flo" THEN bound[t].lo ELSE bound[t].hi
+       IN opnd' = [opnd EXCEPT ![OKey(t)][CallOp(t)][1] = v]
+    /\ IF Atom(t).k = "fn" THEN Remember(t, Atom(t).a) ELSE UNCHANGED memo
+    /\ SubStep(t, 1)
+    /\ UNCHANGED <<job, exe, scratch, bound, ctx, cur, out, aux, names, slot>>
+ArgYield(t) ==
+    /\ IsCall(t) /\ pc[t].s = 1
+    /\ SubStep(t, 2)
+    /\ UNCHANGED <<job, exe, scratch, bound, ctx, cur, out, memo, aux, xaux>>
+Arg2(t) ==
+    /\ IsCall(t) /\ pc[t].s = 2
+    /\ LET c == IF Atom(t).k = "fn" THEN Atom(t).b ELSE 1
+       IN opnd' = [opnd EXCEPT ![OKey(t)][CallOp(t)][2] = ColVal(t, c)] /\ Remember(t, c)
+    /\ SubStep(t, 3)
+    /\ UNCHANGED <<job, exe, scratch, bound, ctx, cur, out, aux, names, slot>>
+Apply(t) ==
+    /\ IsCall(t) /\ pc[t].s = 3
+    /\ LET a == Atom(t)
+           args == opnd[OKey(t)][CallOp(t)]
+           v == FnVal(CallOp(t), args[1], args[2])
+       IN IF a.k = "fn" THEN cur' = [cur EXCEPT ![t] = Append(@, v)] /\ Advance(t)
+          ELSE /\ UNCHANGED cur
+               /\ IF (a.k = "flo" /\ v <= 0) \/ (a.k = "fhi" /\ v >= 0) THEN Advance(t) ELSE SkipRow(t)
+    /\ UNCHANGED <<job, exe, scratch, bound, ctx, out, memo, aux, xaux>>
 (* a run-time pause point: the thread can be descheduled here for as long as the scheduler likes *)
 Yield(t) ==
     /\ InRow(t) /\ Atom(t).k = "rp"
     /\ Advance(t)
-    /\ UNCHANGED <<job, exe, scratch, bound, ctx, cur, out, memo, aux>>
+    /\ UNCHANGED <<job, exe, scratch, bound, ctx, cur, out, memo, aux, xaux>>
 (* the folded call: a constant at run time *)
 Const(t) ==
     /\ InRow(t) /\ Atom(t).k = "cp"
     /\ Advance(t)
-    /\ UNCHANGED <<job, exe, scratch, bound, ctx, cur, out, memo, aux>>
+    /\ UNCHANGED <<job, exe, scratch, bound, ctx, cur, out, memo, aux, xaux>>
 EmitRow(t) ==
     /\ pc[t].ph = "emit"
     /\ pc' = [pc EXCEPT ![t] = Pc("next", 0)]
     /\ out' = [out EXCEPT ![t] = Append(@, cur[t])]
     /\ cur' = [cur EXCEPT ![t] = <<>>]
-    /\ UNCHANGED <<job, exe, scratch, bound, ctx, memo, aux>>
+    /\ UNCHANGED <<job, exe, scratch, bound, ctx, memo, aux, xaux>>
 
 Step(t) ==
     \/ ParseStart(t) \/ Token(t) \/ ParseEnd(t)
-    \/ Begin(t) \/ From(t) \/ Resolve(t) \/ Bind(t) \/ CompilePause(t) \/ Build(t)
+    \/ Begin(t) \/ From(t) \/ Inner(t) \/ SubTable(t) \/ Resolve(t) \/ Bind(t) \/ CompilePause(t) \/ Build(t)
     \/ NextRow(t) \/ Finish(t) \/ Test(t) \/ Column(t) \/ Yield(t) \/ Const(t) \/ EmitRow(t)
+    \/ Arg1(t) \/ ArgYield(t) \/ Arg2(t) \/ Apply(t)
 Next == \E t \in Threads : Step(t)
 Done(t) == pc[t].ph = "done"
 AllDone == \A t \in Threads : Done(t)
 (* where a deterministic scheduler hands over: a pause point (compile time or run time) *)
-YieldStep(t) == Compiling(t, {"P"}) \/ (InRow(t) /\ Atom(t).k = "rp")
+YieldStep(t) == Compiling(t, {"P"}) \/ (InRow(t) /\ Atom(t).k = "rp") \/ (IsCall(t) /\ pc[t].s = 1)
 
 -----------------------------------------------------------------------------
 (* THE PROPERTY, declaratively: what the statement returns when it runs alone -- a function of its own text, its
    own parameters and the ledger of its own connection *)
 Has(s, k) == \E i \in 1..Len(s) : s[i].k = k
-Passes(J, row) == (Has(J.where, "lo") => row[1] >= J.lo) /\ (Has(J.where, "hi") => row[1] <= J.hi)
+Passes(J, row) ==
+    /\ (Has(J.where, "lo") \/ Has(J.where, "flo")) => row[1] >= J.lo
+    /\ (Has(J.where, "hi") \/ Has(J.where, "fhi")) => row[1] <= J.hi
+(* a FROM-subquery that renames and reorders plain columns composes: name n<c> of the subquery IS column c of the table *)
 Proj(J, row) ==
     LET tg == RunTargets(J)
-        idx == SelectSeq([i \in 1..Len(tg) |-> i], LAMBDA i : tg[i].k = "col")
-    IN [n \in 1..Len(idx) |-> row[tg[idx[n]].i]]
+        idx == SelectSeq([i \in 1..Len(tg) |-> i], LAMBDA i : tg[i].k \in {"col", "fn"})
+    IN [n \in 1..Len(idx) |-> LET a == tg[idx[n]] IN IF a.k = "col" THEN row[a.i] ELSE FnVal(a.op, row[a.a], row[a.b])]
 SerialRows(J) ==
     LET sel == SelectSeq(TableRows(J.ledger, J.tab, J.ty), LAMBDA r : Passes(J, r))
     IN [n \in 1..Len(sel) |-> Proj(J, sel[n])]
@@ -340,6 +475,7 @@ TypeOK ==
         /\ pc[t].ph \in {"compile", "next", "where", "target", "emit", "done"}
         /\ ctx[t].rowid \in 0..Len(exe[t].rows)
         /\ pc[t].ph = "compile" => pc[t].i \in 1..Len(exe[t].plan)
+        /\ pc[t].s \in 0..3 /\ (pc[t].s # 0 => IsCall(t))
 
 (* C20: what a thread has emitted is what its statement returns when it runs alone *)
 SerialInv ==
@@ -349,20 +485,41 @@ SerialInv ==
 (* the compiled statement carries the execution's own parameter values *)
 OwnParameters ==
     \A t \in Threads : pc[t].ph \notin {"compile", "done"} =>
-        /\ Has(job[t].where, "lo") => bound[t].lo = job[t].lo
-        /\ Has(job[t].where, "hi") => bound[t].hi = job[t].hi
+        /\ (Has(job[t].where, "lo") \/ Has(job[t].where, "flo")) => bound[t].lo = job[t].lo
+        /\ (Has(job[t].where, "hi") \/ Has(job[t].where, "fhi")) => bound[t].hi = job[t].hi
 (* the syntax tree an execution compiles was read from its own statement text *)
 OwnStatement == \A t \in Threads : OwnTokens(t, got[t])
 (* every value of the current row belongs to the current row of the thread's own scan *)
 OwnRow ==
-    \A t \in Threads : \A j \in 1..Len(cur[t]) : \E c \in 1..NCols : cur[t][j] = Own(t, c)
+    \A t \in Threads : \A j \in 1..Len(cur[t]) :
+        \/ \E c \in 1..NCols : cur[t][j] = Own(t, c)
+        \/ \E n \in 1..Len(exe[t].tg) :
+               LET a == exe[t].tg[n] IN a.k = "fn" /\ cur[t][j] = FnVal(a.op, Own(t, a.a), Own(t, a.b))
+(* a function is applied to the operands its own call evaluated: when the second operand is in, the call's operand
+   list holds the values of the call's own operands for the thread's current row *)
+OwnOperands ==
+    \A t \in Threads : (IsCall(t) /\ pc[t].s = 3) =>
+        LET a == Atom(t)
+            first == IF a.k = "fn" THEN Own(t, a.a) ELSE IF a.k = "flo" THEN job[t].lo ELSE job[t].hi
+            second == IF a.k = "fn" THEN Own(t, a.b) ELSE Own(t, 1)
+        IN opnd[OKey(t)][CallOp(t)] = <<first, second>>
+(* a name is bound to the place it has in the statement's own FROM clause: column c itself for a table of the
+   connection, the position of target n<c> in the statement's own subquery for a FROM-subquery *)
+OwnNames ==
+    \A t \in Threads : \A c \in 1..NCols : slot[t][c] # 0 =>
+        IF HasSub(job[t]) THEN slot[t][c] = PosIn(job[t].sub, c) ELSE slot[t][c] = c
 
 (* a step of one thread changes nothing that belongs to another thread; no shared variable is written *)
 NonInterference ==
     [][\A u \in Threads : pc'[u] = pc[u] =>
           /\ scratch'[u] = scratch[u] /\ bound'[u] = bound[u] /\ ctx'[u] = ctx[u]
-          /\ cur'[u] = cur[u] /\ out'[u] = out[u] /\ parser'[u] = parser[u] /\ got'[u] = got[u]]_vars
-NoSharedState == [][(ColumnMemo = NoMemo => memo' = memo) /\ (ScanMemo = NoScanMemo => tmemo' = tmemo)]_vars
+          /\ cur'[u] = cur[u] /\ out'[u] = out[u] /\ parser'[u] = parser[u] /\ got'[u] = got[u]
+          /\ opnd'[u] = opnd[u] /\ names'[u] = names[u] /\ slot'[u] = slot[u]]_vars
+NoSharedState ==
+    [][/\ ColumnMemo = NoMemo => memo' = memo
+       /\ ScanMemo = NoScanMemo => tmemo' = tmemo
+       /\ OperandScope = OpsPerCall => opnd'[0] = opnd[0]
+       /\ SubqueryColumns = ColsPerTable => names'[0] = names[0]]_vars
 JobConstant == [][job' = job /\ exe' = exe]_vars
 
 Fairness == \A t \in Threads : WF_vars(Step(t))
